@@ -2,6 +2,7 @@ SPECIFICATION TraceSpec
 CONSTANTS
   N = 1
   Rich = FALSE
+  Family = "all"
   Deviations = {}
 CONSTRAINT HWM
 POSTCONDITION TraceAccepted
